@@ -91,6 +91,9 @@ func runC02(c *vk.Ctx) {
 			return
 		}
 		for step := 0; step < opsPer; step++ {
+			if r.Intn(10) == 0 {
+				w.governance()
+			}
 			msg, op, kind, hops := w.randomMsg()
 			if msg == nil {
 				continue
